@@ -111,6 +111,7 @@ type Op struct {
 	S  string  `json:"s,omitempty"`
 	S2 string  `json:"s2,omitempty"`
 	F  float64 `json:"f,omitempty"`
+	N  int     `json:"n,omitempty"` // set: > 0 performs the Set on a stack copy of the object, N frames further down the stack
 	A  string  `json:"a,omitempty"` // extra: the cells passed for parameters of the version's object type, comma separated, in parameter order
 }
 
@@ -123,10 +124,11 @@ type opJSON struct {
 	S2 BStr    `json:"s2,omitempty"`
 	F  float64 `json:"f,omitempty"`
 	A  string  `json:"a,omitempty"`
+	N  int     `json:"n,omitempty"`
 }
 
 func (o Op) MarshalJSON() ([]byte, error) {
-	return json.Marshal(opJSON{o.K, o.V, o.C, o.D, BStr(o.S), BStr(o.S2), o.F, o.A})
+	return json.Marshal(opJSON{o.K, o.V, o.C, o.D, BStr(o.S), BStr(o.S2), o.F, o.A, o.N})
 }
 
 func (o *Op) UnmarshalJSON(data []byte) error {
@@ -134,7 +136,7 @@ func (o *Op) UnmarshalJSON(data []byte) error {
 	if err := json.Unmarshal(data, &j); err != nil {
 		return err
 	}
-	*o = Op{j.K, j.V, j.C, j.D, string(j.S), string(j.S2), j.F, j.A}
+	*o = Op{K: j.K, V: j.V, C: j.C, D: j.D, S: string(j.S), S2: string(j.S2), F: j.F, A: j.A, N: j.N}
 	return nil
 }
 
